@@ -376,9 +376,11 @@ class MultiPort(BaseIOPort):
                 port.send(message)
 
     def _receive(self, block=True):
+        # Never block here: with block=True multi_receive() is an endless
+        # generator. receive() does the waiting.
         self._messages.extend(multi_receive(self.ports,
                                             yield_ports=self.yield_ports,
-                                            block=block))
+                                            block=False))
 
 
 def multi_receive(ports, yield_ports=False, block=True):
